@@ -86,6 +86,9 @@ def _gz(path):
     os.remove(path)
 
 
+AP_UNITS = {'AU': 1.0, 'pc': 206264.80624709636, 'cm': 1.0 / 1.495978707e13}      # AU per unit
+
+
 def write_sed_file(path, name, wav, nu, apertures, flux, err, descending_wav=True,
                    fmt='D', legacy_units=True, flux_unit=None, distance_cm=None,
                    gz=False, ap_unit=None, nu_unit=None, err_unit=None):
@@ -121,7 +124,7 @@ def write_sed_file(path, name, wav, nu, apertures, flux, err, descending_wav=Tru
     if apertures is None:
         ap, apu = np.array([1e-30]), 'cm'
     else:
-        ap, apu = np.asarray(apertures, float), (ap_unit or 'AU')
+        ap, apu = np.asarray(apertures, float) / AP_UNITS[ap_unit or 'AU'], (ap_unit or 'AU')
     hdu2 = fits.BinTableHDU.from_columns([_col('APERTURE', ap, fmt, apu)])
     hdu2.header['EXTNAME'] = 'APERTURES'
     hdu3 = fits.BinTableHDU.from_columns([
@@ -162,7 +165,7 @@ def write_convolved_file(path, names, apertures, flux, err, filtwav, fmt='D', gz
 
 
 def write_cube_file(path, names, wav, apertures, val, unc, descending_wav=False,
-                    dtype='f8', unit='mJy', distance_cm=KPC_CM, with_nu=True, valid=None):
+                    dtype='f8', unit='mJy', distance_cm=KPC_CM, with_nu=True, valid=None, ap_unit='AU'):
     wav = np.asarray(wav, float)
     val = np.asarray(val, float)
     if descending_wav:
@@ -183,7 +186,7 @@ def write_cube_file(path, names, wav, apertures, val, unc, descending_wav=False,
     hl.append(fits.BinTableHDU.from_columns(cols, name='SPECTRAL_INFO'))
     if apertures is not None:
         hl.append(fits.BinTableHDU.from_columns(
-            [_col('APERTURE', np.asarray(apertures, float), 'D', 'AU')], name='APERTURES'))
+            [_col('APERTURE', np.asarray(apertures, float) / AP_UNITS[ap_unit], 'D', ap_unit)], name='APERTURES'))
     h = fits.ImageHDU(np.ascontiguousarray(val, dtype=dtype), name='VALUES')
     h.header['BUNIT'] = unit
     hl.append(h)
@@ -205,7 +208,7 @@ def sed_path(model_dir, name, length_subdir=0, gz=False):
 
 def build_v1(model_dir, truth, table_order=None, aperture_dependent=None, logd_step=0.02,
              length_subdir=0, desc=None, gz=None, fmt='D', legacy_units=True,
-             with_seds=True, param_gz=False, pad_names=False):
+             with_seds=True, param_gz=False, pad_names=False, ap_unit=None):
     """Per-file package.  table_order: indices into truth.names giving the row order of
     parameters.fits.  desc/gz: per-model booleans (storage order / compression)."""
     os.makedirs(os.path.join(model_dir, 'seds'), exist_ok=True)
@@ -225,12 +228,12 @@ def build_v1(model_dir, truth, table_order=None, aperture_dependent=None, logd_s
             write_sed_file(p, name, truth.wav, truth.nu, truth.apertures, truth.flux[i], truth.err[i],
                            descending_wav=True if desc is None else bool(desc[i]),
                            fmt=fmt, legacy_units=legacy_units,
-                           gz=False if gz is None else bool(gz[i]))
+                           gz=False if gz is None else bool(gz[i]), ap_unit=ap_unit)
     return order
 
 
 def build_v2(model_dir, truth, aperture_dependent=None, logd_step=0.02, descending_wav=False,
-             dtype='f8', unit='mJy', with_unc=True):
+             dtype='f8', unit='mJy', with_unc=True, ap_unit='AU'):
     os.makedirs(os.path.join(model_dir, 'convolved'), exist_ok=True)
     if aperture_dependent is None:
         aperture_dependent = truth.apertures is not None
@@ -238,7 +241,7 @@ def build_v2(model_dir, truth, aperture_dependent=None, logd_step=0.02, descendi
     write_parameters(model_dir, truth.names, truth.params)
     sc = {'mJy': 1.0, 'Jy': 1e-3, 'uJy': 1e3}[unit]        # truth is in mJy; the cube may be stored in another unit (BUNIT)
     write_cube_file(os.path.join(model_dir, 'flux.fits'), truth.names, truth.wav, truth.apertures,
-                    truth.flux * sc, truth.err * sc if with_unc else None, descending_wav=descending_wav, dtype=dtype, unit=unit)
+                    truth.flux * sc, truth.err * sc if with_unc else None, descending_wav=descending_wav, dtype=dtype, unit=unit, ap_unit=ap_unit)
 
 
 def write_filter_text(path, wav_um, response, central, descending=False):
